@@ -36,7 +36,8 @@ PROPS["C04"]["units"] = ["ark_ops", "ark_encoding", "ark_element"]
 PROPS["C05"]["units"] = ["ark_ops", "ark_element"]
 PROPS["C06"] = dict(units=["ark_element", "ark_encoding", "ark_ops"], assumptions=[A_ARK2, M_GROUP, M_DECAF, A_WF, A_STD],
     explanation="each public constructor ensures valid(repr) (on the curve and in 2E) or equality with a value proved valid; from_random_bytes doubles the sampled curve point; normalize_batch / batch_convert_to_mul_base return, element by element, the affine form of their inputs (loop invariants after R28)",
-    not_decided=["the rejection samplers of rand.rs (loop until from_random_bytes succeeds: every returned value went through from_random_bytes, whose contract is proved; termination is probabilistic): bounded probe curve.ctor"])
+    not_decided=["termination of the rejection samplers of rand.rs (probabilistic; partial correctness is proved: whatever the RNG stream, the value handed out is a successful decoding)",
+                 "field samplers Fq/Fr/Fp::rand and Distribution<F> for Standard (every value of the type is valid; nothing to decide beyond panic freedom): bounded"])
 PROPS["C08"] = dict(units=["ark_element"], assumptions=[A_ARK2, M_DECAF, A_WF, A_STD, M_LE32],
     explanation="eq == spec_eq(repr, repr); Hash writes a function of spec_encode(repr) only; is_identity / Zero::is_zero / AffineRepr::is_zero == (x == 0)")
 
